@@ -58,6 +58,20 @@ pub proof fn lemma_blank_run_all(s: Seq<u8>, t: Seq<u8>)
 {
 }
 
+// the first n bytes are ASCII blanks: the run from 0 is n plus the run from n  (byte loop of count_leading_whitespace)
+pub open spec fn all_ascii_blank(s: Seq<u8>, n: int) -> bool { forall|i: int| 0 <= i < n ==> s[i] <= 0x20 }
+
+pub proof fn lemma_blank_prefix(s: Seq<u8>, n: int)
+    requires 0 <= n <= s.len(), all_ascii_blank(s, n)
+    ensures blank_run(s, 0) == n + blank_run(s, n)
+    decreases n
+{
+    if n > 0 {
+        lemma_blank_prefix(s, n - 1);
+        assert(blank_run(s, n - 1) == 1 + blank_run(s, n));
+    }
+}
+
 // ---- UTF-8 facts used for "all boundaries fall on character boundaries" ----
 pub proof fn lemma_str_valid(s: &str)
     ensures valid_utf8(s.spec_bytes())
@@ -141,3 +155,17 @@ pub proof fn lemma_ascii_run_boundary(s: Seq<u8>, from: int, cls: spec_fn(u8) ->
 pub open spec fn is_dec_digit(b: u8) -> bool { b == 0x5f || (0x30 <= b <= 0x39) }
 pub open spec fn is_hex_digit(b: u8) -> bool { b == 0x5f || (0x30 <= b <= 0x39) || (0x61 <= b <= 0x66) || (0x41 <= b <= 0x46) }
 pub open spec fn is_bin_digit(b: u8) -> bool { b == 0x5f || b == 0x30 || b == 0x31 }
+
+// a prefix of ASCII bytes ends on a character boundary
+pub proof fn lemma_ascii_prefix_boundary(s: Seq<u8>, n: int)
+    requires valid_utf8(s), 0 <= n <= s.len(), forall|i: int| 0 <= i < n ==> s[i] < 0x80
+    ensures is_char_boundary(s, n)
+    decreases n
+{
+    if n == 0 {
+        is_char_boundary_start_end_of_seq(s);
+    } else {
+        lemma_ascii_prefix_boundary(s, n - 1);
+        lemma_boundary_after_ascii(s, n - 1);
+    }
+}
